@@ -157,7 +157,6 @@ theorem abbrev_slash (s : List Char) (hs : s.contains '/' = true) :
   have hsp : splitSlash s = (s.takeWhile (· != '/'), some ((s.dropWhile (· != '/')).drop 1)) := by
     unfold splitSlash; rw [if_pos hs]
   generalize hT : (s.dropWhile (· != '/')).drop 1 = T at hsp
-  have hfst : (splitSlash s).1 = s.takeWhile (· != '/') := by rw [hsp]
   unfold cidrAbbrevToVerbose
   by_cases h0 : (s.contains ':' || s == []) = true
   · left; rw [if_pos h0]
